@@ -103,6 +103,20 @@ func init() {
 			if sched != nil && sched.cur != nil {
 				release(p)
 			}
+			// the same object in the pool twice will be handed to two owners at once
+			func() {
+				defer func() { recover() }() // uncomparable dynamic values
+				for _, e := range poolStore[p] {
+					if e == a[1] {
+						key := curFn() + " <-> sync.Pool (object put twice)"
+						if !raceSeen[key] {
+							raceSeen[key] = true
+							eng.raceFound = append(eng.raceFound, "an object is put into a sync.Pool that already holds it (in "+curFn()+"): two later Gets share it")
+							eng.raceKeys = append(eng.raceKeys, key)
+						}
+					}
+				}
+			}()
 			poolStore[p] = append(poolStore[p], a[1])
 			return nil
 		},
@@ -319,6 +333,7 @@ func init() {
 		// ---- bytes.Buffer: exact model of the methods csvq uses, able to hold number tokens ---------
 		"(*bytes.Buffer).WriteString": func(fr *frame, a []value) value {
 			c := structField(a[0], 0)
+			raceWrite(c)
 			buf, _ := (*c).([]value)
 			el := strElems(a[1])
 			logCell(c)
@@ -327,6 +342,7 @@ func init() {
 		},
 		"(*bytes.Buffer).Write": func(fr *frame, a []value) value {
 			c := structField(a[0], 0)
+			raceWrite(c)
 			buf, _ := (*c).([]value)
 			el := a[1].([]value)
 			logCell(c)
@@ -335,6 +351,7 @@ func init() {
 		},
 		"(*bytes.Buffer).WriteByte": func(fr *frame, a []value) value {
 			c := structField(a[0], 0)
+			raceWrite(c)
 			buf, _ := (*c).([]value)
 			logCell(c)
 			*c = append(buf[:len(buf):len(buf)], a[1])
@@ -342,6 +359,7 @@ func init() {
 		},
 		"(*bytes.Buffer).WriteRune": func(fr *frame, a []value) value {
 			c := structField(a[0], 0)
+			raceWrite(c)
 			buf, _ := (*c).([]value)
 			bs := runeToBytesAny(a[1])
 			logCell(c)
@@ -353,18 +371,21 @@ func init() {
 			if p == nil {
 				return "<nil>"
 			}
+			raceRead(structField(a[0], 0))
 			st := (*p).(structure)
 			buf, _ := st[0].([]value)
 			off := int(asInt64(st[1]))
 			return mkStr(buf[off:])
 		},
 		"(*bytes.Buffer).Bytes": func(fr *frame, a []value) value {
+			raceRead(structField(a[0], 0))
 			st := (*a[0].(*value)).(structure)
 			buf, _ := st[0].([]value)
 			off := int(asInt64(st[1]))
 			return buf[off:]
 		},
 		"(*bytes.Buffer).Len": func(fr *frame, a []value) value {
+			raceRead(structField(a[0], 0))
 			st := (*a[0].(*value)).(structure)
 			buf, _ := st[0].([]value)
 			off := int(asInt64(st[1]))
@@ -375,6 +396,7 @@ func init() {
 		},
 		"(*bytes.Buffer).Reset": func(fr *frame, a []value) value {
 			c := structField(a[0], 0)
+			raceWrite(c)
 			buf, _ := (*c).([]value)
 			logCell(c)
 			*c = buf[:0]
@@ -1061,7 +1083,7 @@ func syncMapOf(recv value) *omap {
 	p := recv.(*value)
 	m := syncMaps[p]
 	if m == nil {
-		m = &omap{kt: types.NewInterfaceType(nil, nil), fast: map[value]int{}}
+		m = &omap{kt: types.NewInterfaceType(nil, nil), fast: map[value]int{}, atomic: true}
 		syncMaps[p] = m
 	}
 	return m
